@@ -28,6 +28,7 @@ REC_CLASSES = U.RECORD_CLASSES
 
 BOUNDS = {
     "quick": {
+        "fresh_objects": "a record read from a record file is a new object per read (4 record-file classes; a mutable list field changed by the caller)", 
         "csv_tsv_strings": "all strings of length <= 3 over {a , TAB \" SPACE \\ é} (400) as the str fields of "
                            "CSVRecord/TSVRecord subclasses (int, str, float, str) and of a single-field record; "
                            "ints from %r, floats from %r" % (INTS, FLOATS),
@@ -46,6 +47,7 @@ BOUNDS = {
                                 "save + reopen with all 4 record-file classes",
     },
     "thorough": {
+        "fresh_objects": "a record read from a record file is a new object per read (4 record-file classes; a mutable list field changed by the caller)", 
         "csv_tsv_strings": "length <= 3 over 10 characters (adds ' ; 0) and length 4 over the 7 characters",
         "json": "as quick + strings of length <= 3",
         "shared_buffer": "10^4 consecutive saves",
@@ -80,6 +82,8 @@ def cases(tier, seed):
     yield {"kind": "shared_buffer", "n": 1000 if quick else 10000, "seed": seed}
     for order in ("parent-first", "child-first", "sibling-first"):
         yield {"kind": "derived", "order": order}
+    for cls in REC_CLASSES:
+        yield {"kind": "fresh_objects", "cls": cls}
     for i, s in enumerate(strs):
         for fmt in FORMATS:
             yield {"kind": "csv", "fmt": fmt, "s": s, "i": i}
@@ -255,6 +259,35 @@ def _run_derived(case):
     return dict(OK, scenario="records/derived-classes")
 
 
+def _run_fresh_objects(case):
+    """f[i] is load(line i) every time: changing a record that was read (it is the caller's object) must not change what a later read of the
+    same line - or of another line with the same text - returns"""
+    from dataclasses import dataclass, field
+    L = U.lib()
+
+    @dataclass
+    class TR(L.F.JsonRecord):
+        name: str
+        tags: list
+
+    lines = [json.dumps({"name": "a", "tags": ["x"]}, separators=(",", ":")), json.dumps({"name": "b", "tags": []}, separators=(",", ":")),
+             json.dumps({"name": "a", "tags": ["x"]}, separators=(",", ":"))]
+    with U.Scratch() as sc:
+        p = sc.write("recs.txt", ("\n".join(lines) + "\n").encode("utf-8"))
+        with _open_rec(case["cls"], p, TR) as f:
+            r0 = f[0]
+            r0.tags.append("changed-by-the-caller")
+            r0.name = "renamed"
+            again, twin = f[0], f[2]
+            exp = TR("a", ["x"])
+            if again != exp or twin != exp or again is r0:
+                return _fail("records/fresh-object-per-read", {"f[0]": exp, "f[2]": exp}, {"f[0]": again, "f[2]": twin, "same object": again is r0})
+            got = list(f)
+            if got != [exp, TR("b", []), exp]:
+                return _fail("records/fresh-object-per-read", [exp, TR("b", []), exp], got)
+    return dict(OK, scenario="records/fresh-object-per-read")
+
+
 def _run_shared_buffer(case):
     L = U.lib()
     _single()
@@ -413,6 +446,8 @@ def run_case(case):
         return _run_shared_buffer(case)
     if k == "derived":
         return _run_derived(case)
+    if k == "fresh_objects":
+        return _run_fresh_objects(case)
     if k == "recfile":
         return _run_recfile(case)
     if k == "mutrec":
